@@ -12,11 +12,15 @@ import (
 	"fmt"
 	"io"
 	"math/rand"
+	"os"
+	"path/filepath"
+	"regexp"
 	"runtime"
 	"sort"
 	"strconv"
 	"strings"
 	"sync"
+	"time"
 
 	"github.com/aperturerobotics/bifrost/crypto"
 	"github.com/aperturerobotics/bifrost/hash"
@@ -81,19 +85,31 @@ func (b *baseStream) isGated() bool  { b.gmu.Lock(); defer b.gmu.Unlock(); retur
 func (b *baseStream) isParked() bool { b.gmu.Lock(); defer b.gmu.Unlock(); return b.parked }
 
 // flow blocks the caller (the relay goroutine inside strm.Send) while the gate is closed.
-func (b *baseStream) flow() {
+// and fails, like a real stream, when the context is cancelled or the stream breaks meanwhile.
+func (b *baseStream) flow(broken <-chan struct{}) error {
 	b.gmu.Lock()
 	if !b.gated {
 		b.gmu.Unlock()
-		return
+		return nil
 	}
 	g := b.gate
 	b.parked = true
 	b.gmu.Unlock()
-	<-g
+	var err error
+	select {
+	case <-g:
+	case <-b.ctx.Done():
+		err = b.ctx.Err()
+	case <-broken:
+		err = errStream
+	}
 	b.gmu.Lock()
 	b.parked = false
+	if err != nil {
+		b.gated = false
+	}
 	b.gmu.Unlock()
+	return err
 }
 
 func (b *baseStream) Context() context.Context      { return b.ctx }
@@ -116,7 +132,9 @@ type lcall struct {
 }
 
 func (l *lcall) Send(m0 *signaling.ListenResponse) error {
-	l.flow()
+	if err := l.flow(nil); err != nil {
+		return err
+	}
 	// wire fidelity: what the client sees is the marshalled message
 	data, err := m0.MarshalVT()
 	if err != nil {
@@ -201,7 +219,9 @@ func (s *scall) Recv() (*signaling.SessionRequest, error) {
 }
 func (s *scall) RecvTo(m *signaling.SessionRequest) error { return s.MsgRecv(m) }
 func (s *scall) Send(m0 *signaling.SessionResponse) error {
-	s.flow()
+	if err := s.flow(s.closed); err != nil {
+		return err
+	}
 	// wire fidelity: marshal when the stream accepts the message, record what a client would decode
 	data, err := m0.MarshalVT()
 	if err != nil {
@@ -236,6 +256,7 @@ func (s *scall) closeStream()                                   { s.closedMu.Do(
 type minfo struct {
 	tag      int
 	key      string // marshalled bytes
+	pk       int    // attached signature.pub_key: 0 none, k+1 key of peer k, 99 unparsable
 	kind     string // good foreign tampered wrongctx unsigned spoofed
 	signer   int    // key that really signed (index), -1 none
 	seqno    uint64
@@ -265,6 +286,7 @@ type world struct {
 	sizes  [][3]int
 	tags   int
 	failed map[string]bool
+	timed  bool
 }
 
 func (w *world) pidx(s string) int {
@@ -363,6 +385,10 @@ func (l *lcall) isDone() bool { l.mu.Lock(); defer l.mu.Unlock(); return l.done 
 // consecutive yields (with GOMAXPROCS(1) one yield normally drains every
 // runnable goroutine; the repetition covers the scheduler's fairness ticks).
 func (w *world) settle() {
+	if w.timed {
+		w.settleTimed()
+		return
+	}
 	const need = 12
 	last := ""
 	stable := 0
@@ -380,6 +406,27 @@ func (w *world) settle() {
 		}
 	}
 	panic("verif: relay did not become quiescent")
+}
+
+// settleTimed is used by the race scripts only (several Ps, real time): the
+// state must not change for 10 ms.
+func (w *world) settleTimed() {
+	last := ""
+	stable := 0
+	for i := 0; i < 20000; i++ {
+		time.Sleep(time.Millisecond)
+		fp := w.fingerprint()
+		if fp == last && !w.pending() {
+			stable++
+			if stable >= 10 {
+				return
+			}
+		} else {
+			stable = 0
+			last = fp
+		}
+	}
+	panic("verif: relay did not become quiescent (timed)")
 }
 
 // ---- scripted operations ----
@@ -514,7 +561,13 @@ func (w *world) sessReq(s *scall, seq uint64, r reqSpec) {
 		s.closeStream()
 	} else {
 		r.req.SessionSeqno = seq
-		s.reqCh <- wire(r.req)
+		pkt := wire(r.req)
+		if w.rng.Intn(8) == 0 {
+			// an unknown field (number 15, varint) must be ignored by the decoder
+			pkt = append(pkt, 0x78, 0x01)
+			w.c.Class("wire-unknown-field")
+		}
+		s.reqCh <- pkt
 	}
 	w.afterOp()
 	// C20 clauses on the epoch, straight from the property text
@@ -593,6 +646,23 @@ func (w *world) openS(s *scall) {
 	s.open()
 	w.afterOp()
 }
+// abort: the context is cancelled (or the stream breaks) while the call is parked inside Send
+func (w *world) abortL(l *lcall) {
+	w.record(hx.App("AbortL", nat(l.id)), fmt.Sprintf("cancel L%d while it is parked in Send", l.id))
+	l.cancel()
+	w.afterOp()
+}
+func (w *world) abortS(s *scall, cancel bool) {
+	if cancel {
+		w.record(hx.App("AbortS", nat(s.id), "true"), fmt.Sprintf("cancel S%d while it is parked in Send", s.id))
+		s.cancel()
+	} else {
+		w.record(hx.App("AbortS", nat(s.id), "false"), fmt.Sprintf("stream of S%d breaks while it is parked in Send", s.id))
+		s.closeStream()
+	}
+	w.afterOp()
+}
+
 func (w *world) anyGated() bool {
 	for _, l := range w.lcalls {
 		if l.isGated() {
@@ -659,6 +729,87 @@ func (w *world) sessCancel(s *scall) {
 
 // ---- request construction ----
 
+var encCtxOnce sync.Once
+var encCtx string
+
+// signalingContext reads the signing context of session messages from the
+// source tree under test (it is an unexported constant of signaling/rpc).
+func signalingContext() string {
+	encCtxOnce.Do(func() {
+		repo := os.Getenv("VERIF_REPO")
+		if repo == "" {
+			repo = "/repo"
+		}
+		b, err := os.ReadFile(filepath.Join(repo, "signaling", "rpc", "signaling.go"))
+		if err != nil {
+			return
+		}
+		if m := regexp.MustCompile(`const encContext = "([^"]*)"`).FindSubmatch(b); m != nil {
+			encCtx = string(m[1])
+		}
+	})
+	return encCtx
+}
+
+// verifyIndependently decides what ExtractAndVerify must answer for a message
+// without calling the signaling-level function the relay uses: the peer-level
+// verification with the key derived from from_peer_id (an attached
+// signature.pub_key must parse but is otherwise ignored).
+func verifyIndependently(m *signaling.SessionMsg) (bool, peer.ID) {
+	ctx := signalingContext()
+	if ctx == "" {
+		_, pid, err := m.ExtractAndVerify()
+		return err == nil, pid
+	}
+	_, pid, err := m.GetSignedMsg().ExtractAndVerify(ctx)
+	return err == nil, pid
+}
+
+// signedBy: the body of m is signed, in the signaling context, by the key of peer p and claims p as sender.
+func (w *world) signedBy(m *signaling.SessionMsg, p int) (bool, error) {
+	ctx := signalingContext()
+	sm := m.GetSignedMsg()
+	if ctx == "" {
+		_, pid, err := m.ExtractAndVerify()
+		return err == nil && pid.String() == w.peers[p].str, err
+	}
+	if len(sm.GetData()) == 0 || sm.GetFromPeerId() != w.peers[p].str {
+		return false, errors.New("verif: empty body or foreign sender")
+	}
+	err := sm.Verify(ctx, w.peers[p].priv.GetPublic())
+	return err == nil, err
+}
+
+// attachPubKey populates the optional signature.pub_key: 1 = the key that really signed,
+// 2 = the key of the claimed sender / stream, 3 = another peer's key, 4 = unparsable bytes.
+func (w *world) attachPubKey(mi *minfo, m *signaling.SessionMsg, mode, signer, claimed int) {
+	if m.GetSignedMsg().GetSignature() == nil {
+		return
+	}
+	var k int
+	switch mode {
+	case 1:
+		k = signer
+	case 2:
+		k = claimed
+	case 3:
+		k = (claimed + 1 + w.rng.Intn(len(w.peers)-1)) % len(w.peers)
+	default:
+		m.SignedMsg.Signature.PubKey = []byte{0xff, 0x01, 0x02, 0x03}
+		mi.pk = 99
+		return
+	}
+	if k < 0 || k >= len(w.peers) {
+		return
+	}
+	b, err := crypto.MarshalPublicKey(w.peers[k].priv.GetPublic())
+	if err != nil {
+		panic(err)
+	}
+	m.SignedMsg.Signature.PubKey = b
+	mi.pk = k + 1
+}
+
 func (w *world) newMsg(signer int, kind string, seqno uint64) *minfo {
 	w.tags++
 	mi := &minfo{tag: w.tags, kind: kind, signer: signer, seqno: seqno, call: -1}
@@ -686,6 +837,14 @@ func (w *world) newMsg(signer int, kind string, seqno uint64) *minfo {
 			m = &signaling.SessionMsg{Seqno: seqno, SignedMsg: &peer.SignedMsg{FromPeerId: w.peers[signer].str, Data: data}}
 		}
 		mi.signer = -1
+	case "spoofed-pk":
+		// signed by another key K, claims `signer` as sender and carries K as signature.pub_key
+		k := (signer + 1 + w.rng.Intn(len(w.peers)-1)) % len(w.peers)
+		m, err = signaling.NewSessionMsg(w.peers[k].priv, hash.HashType_HashType_BLAKE3, data, seqno)
+		if err == nil {
+			m.SignedMsg.FromPeerId = w.peers[signer].str
+			w.attachPubKey(mi, m, 1, k, signer)
+		}
 	case "spoofed":
 		// signed by `signer` but claims to come from another peer
 		m, err = signaling.NewSessionMsg(w.peers[signer].priv, hash.HashType_HashType_BLAKE3, data, seqno)
@@ -698,8 +857,12 @@ func (w *world) newMsg(signer int, kind string, seqno uint64) *minfo {
 	if err != nil {
 		panic(err)
 	}
-	_, from, verr := m.ExtractAndVerify()
-	mi.ver = verr == nil
+	// every class also comes with the optional signature.pub_key populated
+	if kind != "spoofed-pk" && mi.signer >= 0 && w.rng.Intn(3) == 0 {
+		w.attachPubKey(mi, m, 1+w.rng.Intn(4), mi.signer, w.pidx(m.GetSignedMsg().GetFromPeerId()))
+	}
+	ok, from := verifyIndependently(m)
+	mi.ver = ok
 	mi.from = w.pidx(from.String())
 	mi.msg = m
 	w.register(mi)
@@ -716,7 +879,7 @@ func (w *world) newMsg(signer int, kind string, seqno uint64) *minfo {
 func (w *world) derive(base *minfo, how string) *minfo {
 	w.tags++
 	m := base.msg.CloneVT()
-	mi := &minfo{tag: w.tags, kind: "derived-" + how, signer: base.signer, seqno: base.seqno, call: -1}
+	mi := &minfo{tag: w.tags, kind: "derived-" + how, signer: base.signer, seqno: base.seqno, call: -1, pk: base.pk}
 	switch how {
 	case "body":
 		if m.SignedMsg == nil {
@@ -735,6 +898,10 @@ func (w *world) derive(base *minfo, how string) *minfo {
 		if m.SignedMsg != nil {
 			m.SignedMsg.FromPeerId = w.peers[(base.signer+1+len(w.peers))%len(w.peers)].str
 		}
+	case "pubkey":
+		// same body, sender and signature bytes, signature.pub_key (unsigned, optional) added or replaced
+		mi.pk = base.pk
+		w.attachPubKey(mi, m, 1+w.rng.Intn(4), base.signer, w.pidx(m.GetSignedMsg().GetFromPeerId()))
 	case "reseq":
 		m.Seqno = base.seqno + 1 + uint64(w.rng.Intn(2))
 		mi.seqno = m.Seqno
@@ -742,12 +909,12 @@ func (w *world) derive(base *minfo, how string) *minfo {
 	default:
 		panic(how)
 	}
-	_, from, verr := m.ExtractAndVerify()
-	mi.ver = verr == nil
+	ok, from := verifyIndependently(m)
+	mi.ver = ok
 	mi.from = w.pidx(from.String())
 	mi.msg = m
 	// authentic = the real verification under the real key accepts exactly this body
-	if (how == "reseq" || how == "same") && base.kind == "good" {
+	if (how == "reseq" || how == "same" || how == "pubkey") && base.kind == "good" {
 		mi.kind = "good"
 	}
 	w.register(mi)
@@ -755,7 +922,7 @@ func (w *world) derive(base *minfo, how string) *minfo {
 }
 
 func msgTerm(mi *minfo) string {
-	return hx.App("Build_msg", nat(int(mi.seqno)), nat(mi.tag), hx.Bool(mi.ver), nat(mi.from))
+	return hx.App("Build_msg", nat(int(mi.seqno)), nat(mi.tag), hx.Bool(mi.ver), nat(mi.from), nat(mi.pk))
 }
 
 func (w *world) rSend(mi *minfo) reqSpec {
@@ -821,6 +988,29 @@ func (w *world) oracle(st sigsrv.VerifSnapshot) {
 	for _, s := range w.scalls {
 		if s.valid && !s.isDone() {
 			open[pair{s.src, s.dst}] = append(open[pair{s.src, s.dst}], s)
+		}
+	}
+	// a call ends with the replaced error only if a newer call for the same key was started
+	for i, l := range w.lcalls {
+		if l.isDone() && classify(l.err) == eReplaced {
+			newer := false
+			for _, l2 := range w.lcalls[i+1:] {
+				newer = newer || l2.p == l.p
+			}
+			if !newer {
+				w.fail("C25", "replaced-without-replacement", fmt.Sprintf("L%d of p%d ended with the replaced error but no newer Listen call of p%d exists", l.id, l.p, l.p))
+			}
+		}
+	}
+	for i, s := range w.scalls {
+		if s.valid && s.isDone() && classify(s.err) == eReplaced {
+			newer := false
+			for _, s2 := range w.scalls[i+1:] {
+				newer = newer || (s2.valid && s2.src == s.src && s2.dst == s.dst)
+			}
+			if !newer {
+				w.fail("C25", "replaced-without-replacement", fmt.Sprintf("S%d (p%d->p%d) ended with the replaced error but no newer Session call for that pair exists", s.id, s.src, s.dst))
+			}
 		}
 	}
 	// the clauses about quiescent states are evaluated only when no stream is gated
@@ -974,8 +1164,11 @@ func (w *world) oracle(st sigsrv.VerifSnapshot) {
 				type verdict struct{ prop, key, what string }
 				judge := func(mi *minfo) []verdict {
 					var v []verdict
-					if _, pid, verr := r.m.ExtractAndVerify(); verr != nil || mi.call < 0 || pid.String() != w.peers[w.scalls[mi.call].src].str {
-						return []verdict{{"C20", "forwarded-does-not-verify", fmt.Sprintf("S%d (p%d) received %s msg#%d which does not verify under the key of the stream that submitted it (err=%v)", s.id, s.src, mi.kind, mi.tag, verr)}}
+					if mi.call < 0 {
+						return []verdict{{"C20", "forwarded-unknown-message", fmt.Sprintf("S%d received msg#%d that was never submitted", s.id, mi.tag)}}
+					}
+					if ok, verr := w.signedBy(r.m, w.scalls[mi.call].src); !ok {
+						return []verdict{{"C20", "forwarded-does-not-verify", fmt.Sprintf("S%d (p%d) received %s msg#%d whose body is not signed by the key of the stream that submitted it (p%d): %v", s.id, s.src, mi.kind, mi.tag, w.scalls[mi.call].src, verr)}}
 					}
 					if mi.kind != "good" {
 						return []verdict{{"C20", "forwarded-unauthentic-" + mi.kind, fmt.Sprintf("S%d (p%d) received %s msg#%d", s.id, s.src, mi.kind, mi.tag)}}
@@ -1117,7 +1310,12 @@ func (w *world) script(nops int, pf profile) {
 			if t, ok := ttlL[l]; ok {
 				if t <= 0 {
 					delete(ttlL, l)
-					w.openL(l)
+					if l.isParked() && w.rng.Intn(3) == 0 {
+						w.abortL(l)
+						w.c.Class("op-abort-parked-listen")
+					} else {
+						w.openL(l)
+					}
 				} else {
 					ttlL[l] = t - 1
 				}
@@ -1127,7 +1325,12 @@ func (w *world) script(nops int, pf profile) {
 			if t, ok := ttlS[sc]; ok {
 				if t <= 0 {
 					delete(ttlS, sc)
-					w.openS(sc)
+					if sc.isParked() && w.rng.Intn(3) == 0 {
+						w.abortS(sc, w.rng.Intn(2) == 0)
+						w.c.Class("op-abort-parked-session")
+					} else {
+						w.openS(sc)
+					}
 				} else {
 					ttlS[sc] = t - 1
 				}
@@ -1219,7 +1422,7 @@ func (w *world) script(nops int, pf profile) {
 				w.sessReq(s, w.seqFor(s, 0), w.rSend(w.newMsg((s.src+1+w.rng.Intn(np-1))%np, "foreign", uint64(1+w.rng.Intn(3)))))
 				w.c.Class("op-send-foreign-signer")
 			case 1:
-				kinds := []string{"tampered", "wrongctx", "unsigned", "spoofed"}
+				kinds := []string{"tampered", "wrongctx", "unsigned", "spoofed", "spoofed-pk", "spoofed-pk"}
 				w.sessReq(s, w.seqFor(s, 0), w.rSend(w.newMsg(s.src, kinds[w.rng.Intn(len(kinds))], uint64(1+w.rng.Intn(3)))))
 				w.c.Class("op-send-unverifiable")
 			case 2:
@@ -1270,7 +1473,7 @@ func (w *world) script(nops int, pf profile) {
 				continue
 			}
 			s := cands[w.rng.Intn(len(cands))]
-			hows := []string{"body", "body", "hashty", "sender", "reseq", "same", "same"}
+			hows := []string{"body", "body", "hashty", "sender", "reseq", "same", "same", "pubkey", "pubkey"}
 			how := hows[w.rng.Intn(len(hows))]
 			base := s.lastSent
 			if base.kind != "good" && s.lastGood != nil && w.rng.Intn(2) == 0 {
@@ -1368,7 +1571,7 @@ func (w *world) finish(endAll bool) {
 				if mi := w.byKey[msgKey(r.m)]; mi != nil {
 					rs[j] = hx.App("SRecv", msgTerm(mi))
 				} else {
-					rs[j] = "(SRecv (Build_msg 0 0 false 0))"
+					rs[j] = "(SRecv (Build_msg 0 0 false 0 0))"
 				}
 				nontrivial++
 			default:
@@ -1429,6 +1632,51 @@ func (w *world) finish(endAll bool) {
 	}
 }
 
+// raceRounds: oracle only, no Coq case. A multi-megabyte message keeps the
+// relay's read goroutine busy verifying (hashing) for milliseconds; meanwhile
+// the partner detaches and re-attaches. No message stamped epoch e may be
+// delivered after Opened(e') with e' > e (checked by the per-delivery oracle).
+func raceRounds(c *hx.Ctx, rounds int) {
+	runtime.GOMAXPROCS(4)
+	defer runtime.GOMAXPROCS(1)
+	for i := 0; i < rounds; i++ {
+		w := newWorld(c, 2)
+		w.timed = true
+		a := w.sessStart(0, 0, w.rInit(1), 1, true)
+		b := w.sessStart(1, 0, w.rInit(0), 0, true)
+		w.tags++
+		data := make([]byte, 6<<20)
+		for j := 0; j < len(data); j += 4096 {
+			data[j] = byte(c.Rng.Intn(256))
+		}
+		m, err := signaling.NewSessionMsg(w.peers[0].priv, hash.HashType_HashType_SHA256, data, 1)
+		if err != nil {
+			panic(err)
+		}
+		mi := &minfo{tag: w.tags, kind: "good", signer: 0, seqno: 1, call: a.id, ver: true, from: 0, msg: m}
+		w.register(mi)
+		ep, had := w.epochOf(a)
+		mi.subSeq, mi.subEpoch, mi.hadSess = ep, ep, had
+		w.byKey[mi.key] = mi
+		w.subs[mi.key] = append(w.subs[mi.key], mi)
+		delay := time.Duration(50+c.Rng.Intn(2500)) * time.Microsecond
+		w.record("race", fmt.Sprintf("S%d<-{seq=%d send good %d-byte msg#%d}; after %v: cancel S%d and re-attach p1, without waiting for the relay", a.id, ep, len(data), mi.tag, delay, b.id))
+		req := &signaling.SessionRequest{SessionSeqno: ep, Body: &signaling.SessionRequest_SendMsg{SendMsg: m}}
+		a.reqCh <- wire(req)
+		time.Sleep(delay)
+		b.cancel()
+		w.sessStart(1, 0, w.rInit(0), 0, true)
+		w.afterOp()
+		c.Eval()
+		c.Class("race-big-message-vs-reopen")
+		for _, s := range w.scalls {
+			s.cancel()
+			s.closeStream()
+		}
+		time.Sleep(2 * time.Millisecond)
+	}
+}
+
 func run(c *hx.Ctx) {
 	c.Imports = "SignalRelay.Model SignalRelay.Run"
 	c.Type = "relay_case"
@@ -1440,6 +1688,13 @@ func run(c *hx.Ctx) {
 	}
 	c.Rule = "one case = one script of 6-40 scripted operations (listen start/cancel/usurp, session attach/usurp/detach/re-attach, sends with good/foreign/tampered/wrong-context/unsigned/spoofed signatures made with real keys, stateful variants derived from messages the same stream submitted before (same signature+sender+seqno with another body / hash type / sender, same signed bytes under another seqno, byte-identical retransmit, also across re-opens), zero-valued fields right after non-zero ones on a byte-faithful stream (requests are marshalled and unmarshalled into the callee's object), gated streams (a call parked inside strm.Send for 1-4 further operations, listen and session calls), current/stale/future session seqnos, solicited and unsolicited ack/clear, requests before Init, stream errors) applied to a fresh real Server by 3-4 authenticated clients, waiting for quiescence after every operation; compared: every stream's responses, every call's final error class, map sizes after every operation, final trackers and sessions; non-trivial = script with a delivered message or a listen call"
 	fixed(c)
+	if c.Prop == "C22" {
+		rounds := 20
+		if c.Tier == "thorough" {
+			rounds = 60
+		}
+		raceRounds(c, rounds)
+	}
 	for i := 0; i < c.N; i++ {
 		np := 3
 		if c.Rng.Intn(4) == 0 {
@@ -1613,6 +1868,45 @@ func fixed(c *hx.Ctx) {
 		w.openS(a)
 		w.c.Class("fixed-gated-session")
 		w.finish(true)
+	}
+	// a replaced call does not get to see its replacement: it is parked in Send when replaced and then
+	// cancelled / its stream breaks; the newer call must stay registered and keep working
+	for _, cancel := range []bool{true, false} {
+		w := newWorld(c, 3)
+		b := w.sessStart(1, 0, w.rInit(0), 0, true)
+		s1 := w.sessStart(0, 0, w.rInit(1), 1, true)
+		w.gateS(s1)
+		w.sessReq(b, w.seqFor(b, 0), w.rSend(w.newMsg(1, "good", 1))) // S1 parks in Send(RecvMsg)
+		s2 := w.sessStart(0, 0, w.rInit(1), 1, true)                   // S2 replaces S1
+		w.abortS(s1, cancel)                                           // S1 ends for another reason
+		w.sessReq(b, w.seqFor(b, 0), w.rSend(w.newMsg(1, "good", 2))) // S2 still gets messages
+		w.sessReq(s2, w.seqFor(s2, 0), rAck(2))
+		w.c.Class("fixed-replaced-parked")
+		w.finish(!cancel)
+	}
+	{
+		w := newWorld(c, 3)
+		w.listenStart(1)
+		l1 := w.lcalls[0]
+		w.gateL(l1)
+		w.sessStart(0, 0, w.rInit(1), 1, true) // L1 parks in Send(SetPeer 0)
+		w.listenStart(1)                        // L2 replaces L1
+		w.abortL(l1)                            // L1 is cancelled before it saw the replacement
+		w.sessStart(2, 0, w.rInit(1), 1, true) // L2 must still be told
+		w.c.Class("fixed-replaced-parked")
+		w.finish(false)
+	}
+	// the signature object in every encoding: pub_key of the attacker attached to a message that claims the stream's identity
+	{
+		w := newWorld(c, 3)
+		a := w.sessStart(0, 0, w.rInit(1), 1, true)
+		w.sessStart(1, 0, w.rInit(0), 0, true)
+		m := w.newMsg(0, "good", 1)
+		w.sessReq(a, w.seqFor(a, 0), w.rSend(m))
+		w.sessReq(a, w.seqFor(a, 0), w.rSend(w.derive(m, "pubkey")))
+		w.sessReq(a, w.seqFor(a, 0), w.rSend(w.newMsg(0, "spoofed-pk", 2)))
+		w.c.Class("fixed-pubkey")
+		w.finish(false)
 	}
 	// malicious client
 	{
